@@ -53,6 +53,17 @@ func RenderFile(f *jen.File) ([]byte, error) {
 			return nil, fmt.Errorf("entry points disagree: File.Render wrote\n%s\ninto a bytes.Buffer, but into a writer that renders other code inside Write it wrote\n%s", out, bw.buf.Bytes())
 		}
 	}
+	if (k>>5)%4 == 0 {
+		// behind earlier output in the caller's buffer: the File adds its own bytes and nothing else
+		prior := []byte("// ---- earlier output in the caller's buffer ----\n")
+		pb := bytes.NewBuffer(append([]byte{}, prior...))
+		if err := f.Render(pb); err != nil {
+			return nil, fmt.Errorf("entry points disagree: File.Render into an empty bytes.Buffer succeeds, into one that already holds text it fails: %v", err)
+		}
+		if !bytes.Equal(pb.Bytes(), append(append([]byte{}, prior...), out...)) {
+			return nil, fmt.Errorf("entry points disagree: File.Render wrote\n%s\ninto an empty bytes.Buffer; rendered into a buffer that already held %q the buffer now holds\n%s", out, prior, pb.Bytes())
+		}
+	}
 	if (k>>8)%8 == 0 {
 		if dir, err := os.MkdirTemp("", "verif-save-"); err == nil {
 			defer os.RemoveAll(dir)
